@@ -118,6 +118,38 @@ pub fn compare_levels(r0: &AppRun, r: &AppRun, level: u8) -> Option<Violation> {
     }
 }
 
+impl C02 {
+    /// -O1 and -O2 of the release binary against its own -O0 run
+    pub fn real_case(&self, sc: &Scenario) -> Option<Violation> {
+        use crate::props::c01::{real_run, split_header};
+        let r0 = real_run(sc, 0, "c02real");
+        if r0.timed_out || r0.signal.is_some() || r0.status == Some(101) {
+            return None; // not this property's verdict
+        }
+        let (_, out0) = split_header(&r0.stdout, 2);
+        for level in 1u8..=2 {
+            let r = real_run(sc, level, "c02real");
+            let (_, out) = split_header(&r.stdout, 3);
+            let ok = if r0.status == Some(1) && strip_diag(&r0.stderr).is_some() {
+                // diagnosed ending at -O0: same kind, earlier text may be withheld
+                r.status == Some(1) && out0.starts_with(&out) && strip_diag(&r.stderr).is_some()
+            } else {
+                r.status == r0.status && !r.timed_out && out == out0 && r.stderr == r0.stderr
+            };
+            if !ok {
+                let mut v = Violation::new(
+                    &format!("real-O{}-differs", level),
+                    format!("{} ; stdout {:?} ; stderr {:?}", r0.describe(), lossy(&out0), lossy(&r0.stderr)),
+                    format!("{} ; stdout {:?} ; stderr {:?}", r.describe(), lossy(&out), lossy(&r.stderr)),
+                );
+                v.world = "real";
+                return Some(v);
+            }
+        }
+        None
+    }
+}
+
 impl Property for C02 {
     fn id(&self) -> &'static str {
         "C02"
@@ -157,6 +189,9 @@ impl Property for C02 {
             Tier::Thorough => *rng.pick(&[200u64, 600, 2500, 6000]),
         };
         sc.cap_bits = if rng.chance(25) { 192 } else { 96 };
+        if rng.chance(20) {
+            sc.set_knob("layout", 1);
+        }
         sc
     }
     fn run(&self, sc: &Scenario) -> RunOut {
@@ -209,7 +244,6 @@ impl Property for C02 {
     }
     fn post(&self, tier: Tier, seed: u64, stats: &mut crate::runner::Stats) -> Option<(Scenario, Violation)> {
         // RealWorld slice: -O1 and -O2 of the release binary against its own -O0 run
-        use crate::props::c01::{real_run, split_header};
         let n = match tier {
             Tier::Quick => 250,
             Tier::Thorough => 15_000,
@@ -224,31 +258,10 @@ impl Property for C02 {
                 Some((_, Halt::Ended(End::End), _)) | Some((_, Halt::Ended(End::Exit(_)), _)) | Some((_, Halt::Ended(End::Encoding(_)), _)) => {}
                 _ => return (0, None),
             }
-            let r0 = real_run(&sc, 0, "c02real");
-            if r0.timed_out || r0.signal.is_some() || r0.status == Some(101) {
-                return (1, None); // not this property's verdict
+            match self.real_case(&sc) {
+                Some(v) => (3, Some((sc, v))),
+                None => (3, None),
             }
-            let (_, out0) = split_header(&r0.stdout, 2);
-            for level in 1u8..=2 {
-                let r = real_run(&sc, level, "c02real");
-                let (_, out) = split_header(&r.stdout, 3);
-                let ok = if r0.status == Some(1) && strip_diag(&r0.stderr).is_some() {
-                    // diagnosed ending at -O0: same kind, earlier text may be withheld
-                    r.status == Some(1) && out0.starts_with(&out) && strip_diag(&r.stderr).is_some()
-                } else {
-                    r.status == r0.status && !r.timed_out && out == out0 && r.stderr == r0.stderr
-                };
-                if !ok {
-                    let mut v = Violation::new(
-                        &format!("real-O{}-differs", level),
-                        format!("{} ; stdout {:?} ; stderr {:?}", r0.describe(), lossy(&out0), lossy(&r0.stderr)),
-                        format!("{} ; stdout {:?} ; stderr {:?}", r.describe(), lossy(&out), lossy(&r.stderr)),
-                    );
-                    v.world = "real";
-                    return (3, Some((sc, v)));
-                }
-            }
-            (3, None)
         });
         if bad.is_some() {
             return bad;
@@ -256,6 +269,9 @@ impl Property for C02 {
         stats.extra.push(("realworld_spawns".into(), J::Int(spawned as i64)));
         stats.extra.push(("realworld_note".into(), J::str("release binary at -O0/-O1/-O2 on terminating scenarios, real pipes; a program whose -O0 run ends with exit status 1 and a diagnostic is compared by kind of ending")));
         None
+    }
+    fn replay_real(&self, sc: &Scenario) -> Option<Violation> {
+        self.real_case(sc)
     }
     fn components(&self) -> J {
         J::obj()
